@@ -6,6 +6,7 @@ from .. import astq
 from ..cfg import CFG, header_walk, edges_state
 from ..dataflow import containing_node
 from ..eff import Effects
+from ..report import MISSING
 from ..model import AnalysisError, FunctionInfo
 
 LEVEL = "other"
@@ -194,7 +195,7 @@ def reset(ctx, c, R="R-C04-reset"):
         else:
             # find the offending exit of finalize
             bad_ret = [fcfg.stmt[r] for r, v in fin_returns.items() if attr not in v]
-            where = bad_ret[0] if bad_ret else fin.node
+            where = bad_ret[0] if bad_ret else MISSING(fin.node)
             g, kind, node = M[attr][0]
             ctx.bad(R, fin, where,
                     "self.%s is modified while an utterance is processed (e.g. in %s: %s) but is neither re-initialised on every "
@@ -244,7 +245,7 @@ def started(ctx, c):
     fin = prog.own_method(c, "finalize")
     prop = prog.own_method(c, "started")
     r = astq.returns_of(prop)
-    ctx.check(len(r) == 1 and astq.text(r[0].value) == "self._started", R, prop, r[0] if r else prop.node,
+    ctx.check(len(r) == 1 and astq.text(r[0].value) == "self._started", R, prop, r[0] if r else MISSING(prop.node),
               "%s.started returns the flag unmodified" % c.name, "%s.started returns %s" % (c.name, astq.text(r[0].value) if r else None))
     # who may write
     writers = {}
@@ -360,7 +361,7 @@ def guards(ctx):
     ctx.floor(R, len(targets), 3)
     for f in targets:
         body = [s for s in f.node.body if not (isinstance(s, ast.Expr) and isinstance(s.value, ast.Constant))]
-        first = body[0] if body else None
+        first = body[0] if body else MISSING(None)
         recv = f.params[0]
         ok = isinstance(first, ast.If) and astq.text(first.test) in ("%s.started" % recv, "%s._started" % recv) and \
             len(first.body) == 1 and isinstance(first.body[0], ast.Raise) and astq.raise_type(prog, f, first.body[0]) == "ValueError"
